@@ -28,7 +28,7 @@ if os.path.realpath(REPO) != "/repo":
 
 
 def load_sidecars():
-    from pyvc import dsl, ghost  # noqa
+    from pyvc import dsl, ghost, frames  # noqa
 
     for p in sorted(glob.glob(os.path.join(ROOT, "contracts", "C*.py"))):
         name = "contracts." + os.path.basename(p)[:-3]
